@@ -155,6 +155,14 @@ def family():
         "G2": {"class": "Market", "tickSize": 1.0, "marketPrice": 90.0},
         "X": {"class": "TestAgent", "numAgents": 3, "markets": ["G2", "G0", "G1"], "cashAmount": [1000, 2000], "assetVolume": [10, 50]},
         "Y": dict({"class": "FCNAgent", "from": 0, "to": 1, "markets": ["G1", "G0"], "cashAmount": 10000, "assetVolume": [10, 50]}, **FCN)}
+    # groups that extend other LISTED groups which declare their own count / id range
+    fam["extends_listed_groups"] = {
+        "simulation": {"markets": ["Base", "More"], "agents": ["Fa", "Fb", "Tc"], "sessions": [S(0, 3, True, False, maxNormalOrders=3), S(1, 6, True, True, maxNormalOrders=3)]},
+        "Base": {"class": "Market", "tickSize": 0.5, "marketPrice": 100.0, "from": 0, "to": 1, "fundamentalVolatility": 0.01},
+        "More": {"extends": "Base", "from": 2, "to": 2, "marketPrice": 120.0},
+        "Fa": dict({"class": "FCNAgent", "from": 0, "to": 2, "markets": ["Base", "More"], "cashAmount": 10000, "assetVolume": [10, 50]}, **FCN),
+        "Fb": {"extends": "Fa", "from": 3, "to": 4, "cashAmount": [5000, 6000]},
+        "Tc": {"class": "TestAgent", "numAgents": 2, "markets": ["More", "Base"], "cashAmount": [1000, 2000], "assetVolume": [10, 50]}}
     return fam
 
 
